@@ -274,4 +274,125 @@ theorem intervals_cover (tol : Rat) (es : List Entry) (e : Entry) (he : e ∈ es
     · rw [h]; exact h2
     · exact h3 _ h
 
+/-! ### interval merging is tight: nothing but spans and sub-tolerance gaps, pieces separated -/
+
+/-- `iv` starts at a span start, ends at a span end, and every point of it lies in a span or in a gap
+of at most `tol` just before a span -/
+def Tight (tol : Rat) (S : List (Rat × Rat)) (iv : Rat × Rat) : Prop :=
+  (∃ x ∈ S, iv.1 = x.1) ∧ (∃ x ∈ S, iv.2 = x.2) ∧
+  ∀ t, iv.1 ≤ t → t ≤ iv.2 → ∃ x ∈ S, x.1 - tol ≤ t ∧ t ≤ x.2
+
+theorem mergeLoop_tight (tol : Rat) (htol : 0 ≤ tol) (S : List (Rat × Rat)) (hS : ∀ x ∈ S, x.1 ≤ x.2) :
+    ∀ (rest : List (Rat × Rat)) (start stop : Rat) (acc : List (Rat × Rat)),
+    rest.Pairwise (fun a b => b.2 ≤ a.2) → (∀ x ∈ rest, x.2 ≤ stop) → (∀ x ∈ rest, x ∈ S) →
+    Tight tol S (start, stop) → (∀ y ∈ acc, Tight tol S y) →
+    (∀ y ∈ acc, stop + tol < y.1) → acc.Pairwise (fun a b => a.2 + tol < b.1) →
+    (∀ y ∈ mergeLoop tol rest start stop acc, Tight tol S y) ∧
+    (mergeLoop tol rest start stop acc).Pairwise (fun a b => a.2 + tol < b.1) := by
+  intro rest
+  induction rest with
+  | nil =>
+    intro start stop acc _ _ _ hcur hacc hsep hpw
+    simp only [mergeLoop]
+    refine ⟨?_, List.pairwise_cons.mpr ⟨fun y hy => hsep y hy, hpw⟩⟩
+    intro y hy
+    rcases List.mem_cons.mp hy with rfl | hy
+    · exact hcur
+    · exact hacc y hy
+  | cons hd tl ih =>
+    intro start stop acc hp hle hmem hcur hacc hsep hpw
+    obtain ⟨ns, ne⟩ := hd
+    rw [List.pairwise_cons] at hp
+    have hne : ne ≤ stop := hle (ns, ne) (by simp)
+    have hinS : (ns, ne) ∈ S := hmem (ns, ne) (by simp)
+    have hnsne : ns ≤ ne := hS _ hinS
+    simp only [mergeLoop]
+    split
+    · -- merged
+      rename_i hc
+      have hgap : start - tol ≤ ne := by
+        rcases hc with h | h
+        · linarith
+        · rw [Pb.Crop.rabs_le] at h; linarith [h.2]
+      apply ih (min start ns) stop acc hp.2 (fun x hx => hle x (by simp [hx])) (fun x hx => hmem x (by simp [hx]))
+        ?_ hacc hsep hpw
+      obtain ⟨⟨xs, hxs, hxs1⟩, hend, hpts⟩ := hcur
+      refine ⟨?_, hend, ?_⟩
+      · by_cases hmin : start ≤ ns
+        · exact ⟨xs, hxs, by simp only; rw [min_eq_left hmin]; exact hxs1⟩
+        · exact ⟨(ns, ne), hinS, by simp only; rw [min_eq_right (le_of_lt (not_le.mp hmin))]⟩
+      · intro t ht1 ht2
+        simp only at ht1 ht2
+        by_cases hts : start ≤ t
+        · exact hpts t hts ht2
+        · have hts' : t < start := not_le.mp hts
+          have hns : ns ≤ t := by
+            rcases min_choice start ns with h | h
+            · rw [h] at ht1; linarith
+            · rw [h] at ht1; exact ht1
+          by_cases htne : t ≤ ne
+          · exact ⟨(ns, ne), hinS, by simp only; linarith, htne⟩
+          · -- in the gap (ne, start): within tol before the span that starts at `start`
+            refine ⟨xs, hxs, ?_, ?_⟩
+            · simp only at hxs1; rw [← hxs1]; linarith [not_le.mp htne]
+            · have := hS xs hxs
+              simp only at hxs1; rw [← hxs1] at this; linarith
+    · -- current interval finished
+      rename_i hc
+      have hsep' : ne + tol < start := by
+        have h1 : ¬ start ≤ ne := fun h => hc (Or.inl h)
+        have h2 : ¬ rabs (start - ne) ≤ tol := fun h => hc (Or.inr h)
+        rw [Pb.Crop.rabs_le] at h2
+        by_contra hcon
+        apply h2
+        constructor <;> linarith [not_le.mp h1, not_lt.mp hcon]
+      apply ih ns ne ((start, stop) :: acc) hp.2 (fun x hx => hp.1 x hx) (fun x hx => hmem x (by simp [hx]))
+      · exact ⟨⟨(ns, ne), hinS, rfl⟩, ⟨(ns, ne), hinS, rfl⟩,
+          fun t h1 h2 => ⟨(ns, ne), hinS, by simp only at h1 ⊢; linarith, h2⟩⟩
+      · intro y hy
+        rcases List.mem_cons.mp hy with rfl | hy
+        · exact hcur
+        · exact hacc y hy
+      · intro y hy
+        rcases List.mem_cons.mp hy with rfl | hy
+        · exact hsep'
+        · have := hsep y hy; linarith
+      · exact List.pairwise_cons.mpr ⟨fun y hy => hsep y hy, hpw⟩
+
+/-- **the validity intervals are exactly the spans merged where they touch or overlap**: every
+returned interval runs from a span start to a span end, contains only points of spans and of gaps of
+at most `tol` between them, and different intervals are separated by more than `tol`. -/
+theorem intervals_tight (tol : Rat) (htol : 0 ≤ tol) (es : List Entry) (hspan : ∀ e ∈ es, 0 ≤ e.span) :
+    (∀ iv ∈ intervals tol es,
+      Tight tol (es.map fun e => (e.tmid - e.span / 2, e.tmid + e.span / 2)) iv) ∧
+    (intervals tol es).Pairwise (fun a b => a.2 + tol < b.1) := by
+  unfold intervals
+  set spans := es.map (fun e => (e.tmid - e.span / 2, e.tmid + e.span / 2)) with hspans
+  have hS : ∀ x ∈ spans, x.1 ≤ x.2 := by
+    intro x hx
+    rw [hspans] at hx
+    obtain ⟨e, he, rfl⟩ := List.mem_map.mp hx
+    have := hspan e he
+    simp only; linarith
+  have hsorted : (sortByEnd spans).reverse.Pairwise (fun a b => b.2 ≤ a.2) := by
+    rw [List.pairwise_reverse]; exact sorted_sortByEnd spans
+  have hmemS : ∀ x ∈ (sortByEnd spans).reverse, x ∈ spans := by
+    intro x hx; rw [List.mem_reverse, mem_sortByEnd] at hx; exact hx
+  cases hrev : (sortByEnd spans).reverse with
+  | nil =>
+    simp only [hrev]
+    refine ⟨?_, List.Pairwise.nil⟩
+    intro iv hiv
+    simp at hiv
+  | cons hd tl =>
+    obtain ⟨s0, e0⟩ := hd
+    rw [hrev] at hsorted hmemS
+    rw [List.pairwise_cons] at hsorted
+    have h0 : (s0, e0) ∈ spans := hmemS _ (by simp)
+    simp only [hrev]
+    exact mergeLoop_tight tol htol spans hS tl s0 e0 [] hsorted.2 (fun x hx => hsorted.1 x hx)
+      (fun x hx => hmemS x (by simp [hx]))
+      ⟨⟨(s0, e0), h0, rfl⟩, ⟨(s0, e0), h0, rfl⟩, fun t h1 h2 => ⟨(s0, e0), h0, by simp only at h1 ⊢; linarith, h2⟩⟩
+      (fun y hy => by cases hy) (fun y hy => by cases hy) List.Pairwise.nil
+
 end Pb.Polyco
